@@ -84,6 +84,8 @@ type Backoff struct {
 	hitCounters      *cache.Cache
 	allowlist        Allowlist
 	respSzEst        datasize.ByteSize
+	period           time.Duration
+	duration         time.Duration
 	count            uint
 	ipv4Count        uint
 	ipv4Interval     time.Duration
@@ -101,9 +103,11 @@ func NewBackoff(c *BackoffConfig) (l *Backoff) {
 	return &Backoff{
 		// TODO(ameshkov): Consider running the janitor more often.
 		reqCounters:      cache.New(c.Period, c.Period),
-		hitCounters:      cache.New(c.Duration, c.Duration),
+		hitCounters:      cache.New(c.Period, c.Duration),
 		allowlist:        c.Allowlist,
 		respSzEst:        c.ResponseSizeEstimate,
+		period:           c.Period,
+		duration:         c.Duration,
 		count:            c.Count,
 		ipv4Count:        c.IPv4Count,
 		ipv4Interval:     c.IPv4Interval,
@@ -199,17 +203,31 @@ func (l *Backoff) subnetKey(ip netip.Addr) (key string) {
 }
 
 // incBackoff increments the number of requests above the RPS for a client.
+// The requests above the RPS are counted together within the backoff period;
+// once their number reaches the backoff count, the client stays in the backoff
+// state for the backoff duration.
 func (l *Backoff) incBackoff(key string) {
 	counterVal, ok := l.hitCounters.Get(key)
 	if ok {
-		counterVal.(*atomic.Uint64).Add(1)
+		counter := counterVal.(*atomic.Uint64)
+		if counter.Add(1) == uint64(l.count) {
+			l.hitCounters.Set(key, counter, l.duration)
+		}
 
 		return
 	}
 
 	counter := &atomic.Uint64{}
 	counter.Add(1)
-	l.hitCounters.SetDefault(key, counter)
+
+	exp := l.period
+	if l.count <= 1 {
+		// The very first request above the RPS puts the client into the
+		// backoff state.
+		exp = l.duration
+	}
+
+	l.hitCounters.Set(key, counter, exp)
 }
 
 // hasHitRateLimit checks if the value of requests for given subnet hit the
